@@ -108,7 +108,11 @@ let f id vs =
     if as_int live > 0 || as_int opens <> as_int stops + as_int live then
       props := (Printf.sprintf "iterators: %d opened, %d stopped, %d never stopped" (as_int opens) (as_int stops) (as_int live)) :: !props;
     (match !props, diffs with
-     | p :: _, _ -> "PROP " ^ p ^ (match diffs with d :: _ -> " || also model-diff: " ^ d | [] -> "")
+     | _ :: _, _ ->
+       let ps = List.rev !props in
+       let shown = List.filteri (fun i _ -> i < 3) ps in
+       "PROP " ^ String.concat " | " shown ^ (if List.length ps > 3 then Printf.sprintf " | ... %d more" (List.length ps - 3) else "")
+       ^ (match diffs with d :: _ -> " || also model-diff: " ^ d | [] -> "")
      | [], d :: _ -> "DIFF " ^ d
      | [], [] -> "OK")
   | _ -> "DIFF malformed-record"
